@@ -63,24 +63,24 @@ package openapi3
 //@   tag C04
 //@ func (Content).Validate
 //@   modifies *
-//@   preserves @C04 Parameter.*, SerializationMethod.*, *bool, MediaType.*, map[string]*Encoding, Encoding.*, map[string]*HeaderRef, []string, map[string]*ExampleRef, ExampleRef.Value
+//@   preserves @C04 Parameter.*, SerializationMethod.*, *bool, MediaType.*, map[string]*Encoding, Encoding.*, map[string]*HeaderRef, []string, map[string]*ExampleRef, ExampleRef.Value, Info.Title, Info.Version, Info.Extensions, License.Name, License.Extensions, ExternalDocs.URL, ExternalDocs.Extensions, Response.Description, RequestBody.Content, RequestBody.Extensions, Operation.Responses, Operation.Extensions, Server.URL, Server.Variables, Server.Extensions, SecurityScheme.*, map[string]*ServerVariable
 //@   defines (result == nil) <==> contentOK(content)
 //@ func (*SchemaRef).Validate
 //@   modifies *
-//@   preserves @C04 Parameter.*, SerializationMethod.*, *bool, MediaType.*, map[string]*Encoding, Encoding.*, map[string]*HeaderRef, []string, map[string]*ExampleRef, ExampleRef.Value
+//@   preserves @C04 Parameter.*, SerializationMethod.*, *bool, MediaType.*, map[string]*Encoding, Encoding.*, map[string]*HeaderRef, []string, map[string]*ExampleRef, ExampleRef.Value, Info.Title, Info.Version, Info.Extensions, License.Name, License.Extensions, ExternalDocs.URL, ExternalDocs.Extensions, Response.Description, RequestBody.Content, RequestBody.Extensions, Operation.Responses, Operation.Extensions, Server.URL, Server.Variables, Server.Extensions, SecurityScheme.*, map[string]*ServerVariable
 //@   defines (result == nil) <==> schemaRefOK(x)
 //@ func validateExtensions
 //@   modifies *
-//@   preserves @C04 Parameter.*, SerializationMethod.*, *bool, MediaType.*, map[string]*Encoding, Encoding.*, map[string]*HeaderRef, []string, map[string]*ExampleRef, ExampleRef.Value
+//@   preserves @C04 Parameter.*, SerializationMethod.*, *bool, MediaType.*, map[string]*Encoding, Encoding.*, map[string]*HeaderRef, []string, map[string]*ExampleRef, ExampleRef.Value, Info.Title, Info.Version, Info.Extensions, License.Name, License.Extensions, ExternalDocs.URL, ExternalDocs.Extensions, Response.Description, RequestBody.Content, RequestBody.Extensions, Operation.Responses, Operation.Extensions, Server.URL, Server.Variables, Server.Extensions, SecurityScheme.*, map[string]*ServerVariable
 //@   defines (result == nil) <==> extensionsOK(extensions)
 //@ func validateExampleValue
 //@   modifies *
-//@   preserves @C04 Parameter.*, SerializationMethod.*, *bool, MediaType.*, map[string]*Encoding, Encoding.*, map[string]*HeaderRef, []string, map[string]*ExampleRef, ExampleRef.Value
+//@   preserves @C04 Parameter.*, SerializationMethod.*, *bool, MediaType.*, map[string]*Encoding, Encoding.*, map[string]*HeaderRef, []string, map[string]*ExampleRef, ExampleRef.Value, Info.Title, Info.Version, Info.Extensions, License.Name, License.Extensions, ExternalDocs.URL, ExternalDocs.Extensions, Response.Description, RequestBody.Content, RequestBody.Extensions, Operation.Responses, Operation.Extensions, Server.URL, Server.Variables, Server.Extensions, SecurityScheme.*, map[string]*ServerVariable
 // (assumed of the reference wrapper's validator - not verified here: success means the reference is resolved)
 //@ func (*ExampleRef).Validate
 //@   modifies *
 //@   ensures result == nil ==> x.Value != nil
-//@   preserves @C04 Parameter.*, SerializationMethod.*, *bool, MediaType.*, map[string]*Encoding, Encoding.*, map[string]*HeaderRef, []string, map[string]*ExampleRef, ExampleRef.Value
+//@   preserves @C04 Parameter.*, SerializationMethod.*, *bool, MediaType.*, map[string]*Encoding, Encoding.*, map[string]*HeaderRef, []string, map[string]*ExampleRef, ExampleRef.Value, Info.Title, Info.Version, Info.Extensions, License.Name, License.Extensions, ExternalDocs.URL, ExternalDocs.Extensions, Response.Description, RequestBody.Content, RequestBody.Extensions, Operation.Responses, Operation.Extensions, Server.URL, Server.Variables, Server.Extensions, SecurityScheme.*, map[string]*ServerVariable
 
 //@ func (*Parameter).Validate
 //@   requires parameter != nil
@@ -123,7 +123,7 @@ package openapi3
 //@   tag C04
 //@ func (*PathItem).Validate
 //@   modifies *
-//@   preserves @C04 []string, Paths.m
+//@   preserves @C04 Info.Title, Info.Version, Info.Extensions, License.Name, License.Extensions, ExternalDocs.URL, ExternalDocs.Extensions, Response.Description, RequestBody.Content, RequestBody.Extensions, Operation.Responses, Operation.Extensions, Server.URL, Server.Variables, Server.Extensions, SecurityScheme.*, map[string]*ServerVariable
 
 //@ func (*Paths).Map
 //@   modifies nothing
@@ -205,3 +205,84 @@ package openapi3
 //@   modifies nothing
 //@   fresh
 //@   ensures result != nil
+
+// validators without a contract of their own are scanned for these frame facts (validation reads
+// the objects it validates; it does not rewrite their required fields or extension maps)
+//@ default-frame @C04 preserves Info.Title, Info.Version, Info.Extensions, License.Name, License.Extensions, ExternalDocs.URL, ExternalDocs.Extensions, Response.Description, RequestBody.Content, RequestBody.Extensions, Operation.Responses, Operation.Extensions, Server.URL, Server.Variables, Server.Extensions, SecurityScheme.*, map[string]*ServerVariable
+
+// ---- "a missing required field ... an ill-formed security scheme or server" (C04): the scalar rules
+// of the small validators, one post-condition per rule (the OpenAPI 3.0.3 object definitions), and
+// "non-extension extra field": success implies the extension map passed validateExtensions.
+//@ func (*Info).Validate
+//@   requires info != nil
+//@   modifies *
+//@   preserves @C04 Info.Title, Info.Version, Info.Extensions, License.Name, License.Extensions, ExternalDocs.URL, ExternalDocs.Extensions, Response.Description, RequestBody.Content, RequestBody.Extensions, Operation.Responses, Operation.Extensions, Server.URL, Server.Variables, Server.Extensions, SecurityScheme.*, map[string]*ServerVariable
+//@   ensures [required-fields] result == nil ==> old(info.Title) != "" && old(info.Version) != ""
+//@   ensures [extensions] result == nil ==> extensionsOK(old(info.Extensions))
+//@   option safety-tags none
+//@   tag C04
+//@ func (*License).Validate
+//@   requires license != nil
+//@   modifies *
+//@   preserves @C04 Info.Title, Info.Version, Info.Extensions, License.Name, License.Extensions, ExternalDocs.URL, ExternalDocs.Extensions, Response.Description, RequestBody.Content, RequestBody.Extensions, Operation.Responses, Operation.Extensions, Server.URL, Server.Variables, Server.Extensions, SecurityScheme.*, map[string]*ServerVariable
+//@   ensures [required-fields] result == nil ==> old(license.Name) != ""
+//@   ensures [extensions] result == nil ==> extensionsOK(old(license.Extensions))
+//@   option safety-tags none
+//@   tag C04
+//@ func (*ExternalDocs).Validate
+//@   requires e != nil
+//@   modifies *
+//@   preserves @C04 Info.Title, Info.Version, Info.Extensions, License.Name, License.Extensions, ExternalDocs.URL, ExternalDocs.Extensions, Response.Description, RequestBody.Content, RequestBody.Extensions, Operation.Responses, Operation.Extensions, Server.URL, Server.Variables, Server.Extensions, SecurityScheme.*, map[string]*ServerVariable
+//@   ensures [required-fields] result == nil ==> old(e.URL) != ""
+//@   ensures [extensions] result == nil ==> extensionsOK(old(e.Extensions))
+//@   option safety-tags none
+//@   tag C04
+//@ func (*Response).Validate
+//@   requires response != nil
+//@   modifies *
+//@   preserves @C04 Info.Title, Info.Version, Info.Extensions, License.Name, License.Extensions, ExternalDocs.URL, ExternalDocs.Extensions, Response.Description, RequestBody.Content, RequestBody.Extensions, Operation.Responses, Operation.Extensions, Server.URL, Server.Variables, Server.Extensions, SecurityScheme.*, map[string]*ServerVariable
+//@   ensures [required-fields] result == nil ==> old(response.Description) != nil
+//@   option safety-tags none
+//@   tag C04
+//@ func (*RequestBody).Validate
+//@   requires requestBody != nil
+//@   modifies *
+//@   preserves @C04 Info.Title, Info.Version, Info.Extensions, License.Name, License.Extensions, ExternalDocs.URL, ExternalDocs.Extensions, Response.Description, RequestBody.Content, RequestBody.Extensions, Operation.Responses, Operation.Extensions, Server.URL, Server.Variables, Server.Extensions, SecurityScheme.*, map[string]*ServerVariable
+//@   ensures [required-fields] result == nil ==> old(requestBody.Content) != nil
+//@   ensures [content-validated] result == nil ==> contentOK(old(requestBody.Content))
+//@   ensures [extensions] result == nil ==> extensionsOK(old(requestBody.Extensions))
+//@   option safety-tags none
+//@   tag C04
+//@ func (*Operation).Validate
+//@   requires operation != nil
+//@   modifies *
+//@   preserves @C04 Info.Title, Info.Version, Info.Extensions, License.Name, License.Extensions, ExternalDocs.URL, ExternalDocs.Extensions, Response.Description, RequestBody.Content, RequestBody.Extensions, Operation.Responses, Operation.Extensions, Server.URL, Server.Variables, Server.Extensions, SecurityScheme.*, map[string]*ServerVariable
+//@   ensures [required-fields] result == nil ==> old(operation.Responses) != nil
+//@   option safety-tags none
+//@   tag C04
+//@ func (*Server).Validate
+//@   requires server != nil
+//@   modifies *
+//@   preserves @C04 Info.Title, Info.Version, Info.Extensions, License.Name, License.Extensions, ExternalDocs.URL, ExternalDocs.Extensions, Response.Description, RequestBody.Content, RequestBody.Extensions, Operation.Responses, Operation.Extensions, Server.URL, Server.Variables, Server.Extensions, SecurityScheme.*, map[string]*ServerVariable
+//@   ensures [required-fields] result == nil ==> old(server.URL) != ""
+//@   ensures [variables-declared] result == nil ==> strCount(old(server.URL), "{") == strCount(old(server.URL), "}") && strCount(old(server.URL), "{") == old(len(server.Variables))
+//@   option safety-tags none
+//@   tag C04
+// security schemes (OpenAPI 3.0.3 "Security Scheme Object"): which fields go with which type
+//@ spec secSchemeOK(ss *SecurityScheme) bool :=
+//@     (ss.Type == "apiKey" || ss.Type == "http" || ss.Type == "oauth2" || ss.Type == "openIdConnect")
+//@  && (ss.Type == "apiKey" ==> (ss.In == "query" || ss.In == "header" || ss.In == "cookie") && ss.Name != "")
+//@  && (ss.Type != "apiKey" ==> ss.In == "" && ss.Name == "")
+//@  && (ss.Type == "http" ==> (ss.Scheme == "bearer" || ss.Scheme == "basic" || ss.Scheme == "negotiate" || ss.Scheme == "digest"))
+//@  && (ss.BearerFormat != "" ==> ss.Type == "http" && ss.Scheme == "bearer")
+//@  && (ss.Type == "oauth2" ==> ss.Flows != nil)
+//@  && (ss.Type != "oauth2" ==> ss.Flows == nil)
+//@  && (ss.Type == "openIdConnect" ==> ss.OpenIdConnectUrl != "")
+//@ func (*SecurityScheme).Validate
+//@   requires ss != nil
+//@   modifies *
+//@   preserves @C04 Info.Title, Info.Version, Info.Extensions, License.Name, License.Extensions, ExternalDocs.URL, ExternalDocs.Extensions, Response.Description, RequestBody.Content, RequestBody.Extensions, Operation.Responses, Operation.Extensions, Server.URL, Server.Variables, Server.Extensions, SecurityScheme.*, map[string]*ServerVariable
+//@   ensures [well-formed] result == nil ==> old(secSchemeOK(ss))
+//@   ensures [extensions] result == nil ==> extensionsOK(old(ss.Extensions))
+//@   option safety-tags none
+//@   tag C04
